@@ -109,6 +109,129 @@ theorem payload_requires_filter (pf : Platform) (e : Exp) (cmd : String) (cl il 
   let ⟨_, h1, h2, _, _⟩ := preparePayload_ok pf e cmd cl il kw e' pl h
   ⟨h1, h2⟩
 
+/-! ## the circuit in a request is the processor's circuit *now* (nothing stale survives a change) -/
+
+/-- **payload_circuit_is_current.**  In every state of a session, a payload that carries a circuit
+carries the circuit symbol the processor holds at that very moment, with the current circuit size —
+`prepare_job_payload` reads the experiment afresh, whatever was produced or sent before. -/
+theorem payload_circuit_is_current (w : World) (cmd : String) (il : Bool) (kw : Dict V) (pl : Dict V)
+    (h : (step w (.prepare cmd false il kw)).2 = .payload pl) :
+    ∃ e, w.exp = some e ∧ dget pl "circuit" = some (.circ e.circ e.size) := by
+  cases he : w.exp with
+  | none => simp [step, he] at h
+  | some e =>
+    cases hp : preparePayload w.pf e cmd false il kw with
+    | mk e' r =>
+      cases r with
+      | error err => simp [step, he, hp] at h
+      | ok pl0 =>
+        simp only [step, he, hp, Out.payload.injEq] at h
+        subst h
+        exact ⟨e, rfl, (payload_configured_present w.pf e cmd false il kw e' pl0 hp).2.1 rfl⟩
+
+/-- … and the payload captured by a `Sampler` job at its creation likewise. -/
+theorem job_circuit_is_current (w : World) (method : Method) (pl : Dict V)
+    (h : (step w (.createJob method)).2 = .payload pl) :
+    ∃ e, w.exp = some e ∧ dget pl "circuit" = some (.circ e.circ e.size) := by
+  cases he : w.exp with
+  | none => simp [step, he] at h
+  | some e =>
+    cases hs : w.sampler with
+    | none => simp [step, he, hs] at h
+    | some s =>
+      cases hj : createJob w.pf e s method with
+      | mk e' r =>
+        cases r with
+        | error err => simp [step, he, hs, hj] at h
+        | ok j =>
+          simp only [step, he, hs, hj, Out.payload.injEq] at h
+          subst h
+          obtain ⟨prim, conv, pl0, -, -, hp, hpl, -, -, -, -⟩ := createJob_ok w.pf e s method e' j hj
+          refine ⟨e, rfl, ?_⟩
+          rw [hpl, dget_dset_ne _ _ _ _ (by decide)]
+          have h0 := (payload_configured_present w.pf e prim.name false false [] e' pl0 hp).2.1 rfl
+          split
+          · rw [dget_dset_ne _ _ _ _ (by decide)]; exact h0
+          · exact h0
+
+/-- **circuit_never_stale.**  Over EVERY history of operations that do not change the circuit (input,
+filter, post-selection, noise, heralds, parameters, payload generation, samplers, iterations, job
+creation, executions — in any number and order), the next payload still carries the circuit symbol
+the processor held before that history: producing or sending requests leaves no copy that could
+replace the processor's own circuit. -/
+theorem circuit_never_stale (w : World) (ops : List Op) (hops : ∀ op ∈ ops, op.touchesCircuit = false)
+    (cmd : String) (il : Bool) (kw : Dict V) (pl : Dict V)
+    (h : (step (exec step w ops) (.prepare cmd false il kw)).2 = .payload pl) :
+    ∃ c n, w.circ = some c ∧ dget pl "circuit" = some (.circ c n) := by
+  obtain ⟨e, he, hc⟩ := payload_circuit_is_current _ cmd il kw pl h
+  refine ⟨e.circ, e.size, ?_, hc⟩
+  rw [← exec_circ_frame w ops hops]
+  simp [World.circ, he]
+
+/-- **A parameter value changed between two requests reaches the second request.**  After
+`P.set_value` on a circuit parameter (the circuit then denotes the matrix `c`), and after any history of
+non-circuit operations — earlier payloads and executed jobs included —, the payload carries `c`. -/
+theorem retuned_circuit_is_sent (w : World) (c : Nat) (ops : List Op)
+    (hops : ∀ op ∈ ops, op.touchesCircuit = false) (cmd : String) (il : Bool) (kw : Dict V) (pl : Dict V)
+    (h : (step (exec step (step w (.retune c)).1 ops) (.prepare cmd false il kw)).2 = .payload pl) :
+    ∃ s n, dget pl "circuit" = some (.circ s n) ∧ s.id = c := by
+  obtain ⟨s, n, hs, hpl⟩ := circuit_never_stale _ ops hops cmd il kw pl h
+  refine ⟨s, n, hpl, ?_⟩
+  cases he : w.exp with
+  | none => simp [step, onExp, he, World.circ] at hs
+  | some e =>
+    simp only [step, onExp, he, World.circ, pure, Except.pure, Option.map_some, Option.some.injEq] at hs
+    rw [← hs]; rfl
+
+/-- **A circuit replaced between two requests reaches the second request**, through
+`RemoteProcessor.set_circuit` as well as through `rp.experiment.set_circuit`, and so does a component
+appended with `add`. -/
+theorem replaced_circuit_is_sent (w : World) (op : Op) (c : Nat)
+    (hop : (∃ checked sz cps, op = .setCircuit checked sz c cps) ∨ (∃ cps, op = .addComponent c cps))
+    (hdone : (step w op).2 = .done) (ops : List Op)
+    (hops : ∀ op ∈ ops, op.touchesCircuit = false) (cmd : String) (il : Bool) (kw : Dict V) (pl : Dict V)
+    (h : (step (exec step (step w op).1 ops) (.prepare cmd false il kw)).2 = .payload pl) :
+    ∃ n, dget pl "circuit" = some (.circ ⟨c, []⟩ n) := by
+  obtain ⟨s, n, hs, hpl⟩ := circuit_never_stale _ ops hops cmd il kw pl h
+  refine ⟨n, ?_⟩
+  rw [hpl]
+  suffices hh : (step w op).1.circ = some ⟨c, []⟩ by rw [hh] at hs; cases hs; rfl
+  cases he : w.exp with
+  | none =>
+    rcases hop with ⟨checked, sz, cps, rfl⟩ | ⟨cps, rfl⟩ <;> simp [step, onExp, he] at hdone
+  | some e =>
+    rcases hop with ⟨checked, sz, cps, rfl⟩ | ⟨cps, rfl⟩
+    · simp only [step, onExp, he] at hdone ⊢
+      split at hdone
+      · cases hdone
+      · rename_i e' hf
+        simp only [hf, World.circ, Option.map_some, Option.some.injEq]
+        split at hf
+        · cases hf
+        · unfold setCircuit at hf
+          split at hf
+          · cases hf
+          · split at hf
+            · cases hf
+            · cases hf; rfl
+    · simp only [step, onExp, he] at hdone ⊢
+      split at hdone
+      · cases hdone
+      · rename_i e' hf
+        simp only [hf, World.circ, Option.map_some, Option.some.injEq]
+        split at hf
+        · cases hf
+        · cases hf; rfl
+
+/-- a phase scan: two payloads of the same processor around a `set_value` carry two different circuits;
+and a replaced circuit is the one sent afterwards -/
+example : ((run step (World.init ⟨none, none, none, none, ["probs"]⟩)
+    [.newRemote false 2 0 ["phi"] none, .setFilter (some 1), .withInput [1, 0], .prepare "probs" false false [],
+     .retune 1, .prepare "probs" false false [], .setCircuit false 2 2 [], .prepare "probs" false false []]).2.map
+      (fun o => match o with | .payload pl => dget pl "circuit" | _ => none)) =
+    [none, none, none, some (.circ ⟨0, []⟩ 2), none, some (.circ ⟨1, []⟩ 2), none, some (.circ ⟨2, []⟩ 2)] := by
+  decide
+
 /-! ## heralds are part of the input state -/
 
 /-- **Heralds included in the input.**  On a well-formed experiment `with_input(s)` succeeds exactly when
